@@ -167,7 +167,7 @@ func c08(c *evid.Ctx) {
 				case 12:
 					p.desc, p.msg, p.expect = "announce_peer without a", srv.Query("announce_peer", p.t, nil), reply("e203")
 				case 13:
-					p.desc, p.msg, p.expect = "put immutable valid", srv.Query("put", p.t, withArgs(benc.Dict{"v": string(r.Bytes(r.Intn(200))), "seq": int64(r.Intn(5)), "token": tok})), reply("r")
+					p.desc, p.msg, p.expect = "put immutable valid", srv.Query("put", p.t, withArgs(benc.Dict{"v": string(r.Bytes(12 + r.Intn(200))), "seq": int64(r.Intn(5)), "token": tok})), reply("r")
 				case 14:
 					p.desc, p.msg, p.expect = "put without seq", srv.Query("put", p.t, withArgs(benc.Dict{"v": "x", "token": tok})), reply("e203")
 				case 15:
